@@ -287,6 +287,20 @@ def _spec_dist(dist, o, kv):
         dist["note: " + o["note"]] += 1
 
 
+def _guess_dist(dist, o, kv):
+    dist["mode_%s" % {0: "conforming", 1: "defect", 2: "arbitrary"}.get(o.get("mode"), "?")] += 1
+    dist["result_" + str(o.get("result"))] += 1
+    if o.get("note"):
+        dist["note: " + o["note"]] += 1
+
+
+guess_stream = generic_stream(
+    "GUESS", "guess", None,
+    lambda pid, acc: acc.startswith("rej"),
+    ("yaml", "guess", "note", "expect", "result"),
+    lambda o, kv: o.get("mode") in (0, 1),
+    _guess_dist)
+
 spec_stream = generic_stream(
     "SPEC", "spec", None,
     # which acceptor outcomes count against C10: accept/reject or spec disagreements (error-kind differences do not)
@@ -300,7 +314,7 @@ def glob_(d, pat):
     return glob.glob(os.path.join(d, pat))
 
 
-STREAMS = {"run": run_stream, "ops": ops_stream, "spec": spec_stream}
+STREAMS = {"run": run_stream, "ops": ops_stream, "spec": spec_stream, "guess": guess_stream}
 
 CTL_FILES = ["theories/Ctl.vo", "theories/CtlProofs.vo"]
 
@@ -366,6 +380,21 @@ PROPS = {
         "tested_not_proved": [
             "that spec_util::build_node refines SpecBuild.build_node: every generated document (well-formed with hoisted/shadowed typeDefs, single-rule violations, attribute soups incl. tags and non-string keys) is built by both and the results compared (accept/reject and the spec exactly; the error kind is compared but a difference there alone is not counted)",
             "'every declared parameter present' is checked by the monitor members_present on every accepted document; a declarative Denotes relation is not yet proved equivalent to build",
+        ],
+    },
+    "C11": {
+        "propfile": "theories/Properties/C11.v",
+        "coq_targets": ["theories/Properties/C11.vo"],
+        "checkers": ["GuessCheck"],
+        "streams": [{"kind": "guess", "name": "mixed", "profile": "mixed", "count": {"quick": 960, "thorough": 16000}, "salt": 11}],
+        "assumptions": [
+            "decided at the serde_json::Value level (json_ok: floats finite, integers in u64/i64 range); JSON text <-> tree is serde_json's",
+            "objects are BTreeMaps: modelled as association lists compared as maps",
+        ],
+        "tested_not_proved": [
+            "that value_util::build_node / Value::to_json refine Codec.from_json / Codec.to_json: compared on conforming values reached by real mutations (both map encodings), single-defect corruptions, arbitrary JSON",
+            "round trip value -> JSON -> value -> same JSON: checked by the monitor on every conforming case (also through JSON text), general theorem not yet proved",
+            "'the spec's own initial value as guess gives the same run': not yet covered by a stream",
         ],
     },
 }
